@@ -120,7 +120,7 @@ pub fn scenario(kind: &str, sid: &str, nops: usize, maxlen: usize, rng: &mut Rng
                         e.push(read_event(&be2, t, &id, &mut nm, &vals_copy, "pre-publish"));
                         !interrupt
                     })));
-                    let res = be.write_bytes(t, &id, false, data.clone().into());
+                    let res = be.write_bytes(t, &id, false, as_list(&data, rng, kind == "local"));
                     rustic_backend::local::verif_hooks::set_pre_publish(None);
                     pre = evs.lock().unwrap().clone();
                     names = names_snapshot.lock().unwrap().clone();
@@ -134,7 +134,7 @@ pub fn scenario(kind: &str, sid: &str, nops: usize, maxlen: usize, rng: &mut Rng
                         out.rec(&read_event(be.as_ref(), t, &id, &mut names, &vals, "after-interruption"));
                     }
                 } else {
-                    let res = be.write_bytes(t, &id, false, data.clone().into());
+                    let res = be.write_bytes(t, &id, false, as_list(&data, rng, kind == "local"));
                     out.rec(&json!({"e":"write","k":k,"tpe":tname(crate::store::tnum(t)),"v":vid,"len":len,"ok":res.is_ok(),"interrupted":false}));
                 }
                 _ = pre;
@@ -181,6 +181,32 @@ pub fn scenario(kind: &str, sid: &str, nops: usize, maxlen: usize, rng: &mut Rng
     for t in TYPES {
         out.rec(&list_event(be.as_ref(), t, &mut names, "final"));
     }
+}
+
+/// the content as the library hands it to a back end: a list of chunks - one, or several with empty ones in between
+fn as_list(data: &bytes::Bytes, rng: &mut Rng, empties: bool) -> rustic_core::BytesList {
+    let mut l = rustic_core::BytesList::default();
+    match rng.below(4) {
+        0 => l.add(data.clone()),
+        _ => {
+            let mut pos = 0usize;
+            let parts = 1 + rng.below(4);
+            for k in 0..=parts {
+                if empties && rng.chance(1, 3) {
+                    l.add(bytes::Bytes::new()); // an empty chunk before / between / after the others
+                }
+                let end = if k == parts { data.len() } else { pos + rng.below((data.len() - pos) as u64 + 1) as usize };
+                if empties || end > pos || data.is_empty() {
+                    l.add(data.slice(pos..end));
+                }
+                pos = end;
+            }
+            if empties && rng.chance(1, 3) {
+                l.add(bytes::Bytes::new());
+            }
+        }
+    }
+    l
 }
 
 pub fn run(a: &Args) {
